@@ -78,6 +78,9 @@ def _worker(args):
             res["obligations"] = [r.as_dict() for r in bres["results"]]
             for f in bres["failed"]:
                 _handle_failure(res, c, repo, cfg, f, seed, sized=True)
+            for r in bres["results"]:
+                if r.name == "out-of-reach":
+                    res["undecided"].append(dict(obligation="out-of-reach", reason="some size configurations are out of reach even in tier B: %s" % r.detail))
         else:
             res["obligations"] = [r.as_dict() for r in out["results"]]
             if out["cover"] and not str(out["cover"]).startswith("ok"):
